@@ -114,8 +114,18 @@ def rr_cover(ctx):
         for d, bb, b, it, m in calls:
             rc = Reach(facts, b, Evaluator(facts))
             # a reset inside an adaptor closure counts only if the adaptor itself runs on every path of reset_remove
-            outer_ok = '_parent_bb' not in m or rc_body.must_pass([m['_parent_bb']])
-            if (m.get('loop') or rc.must_pass([bb])) and outer_ok:
+            # (an early return when the argument clock — or the field itself — is empty skips nothing that could change anything)
+            noop = {'clock': (2, ()), 'field': (1, (d[0],))}
+            itb0 = interp(facts, body)
+            outer_ok = '_parent_bb' not in m or rc_body.must_pass([m['_parent_bb']]) or must_pass_unless_noop(facts, body, itb0, [m['_parent_bb']], noop)
+            inner_ok = m.get('loop') or rc.must_pass([bb]) or (b is body and must_pass_unless_noop(facts, body, itb0, [bb], noop))
+            if m.get('loop') and b is body and '_parent_bb' not in m:
+                # the reset sits in a loop of reset_remove itself: that loop must be reached (same proviso)
+                from .loops import loop_of_block
+                lp_ = loop_of_block(itb0, bb)
+                if lp_ is not None and not rc_body.must_pass([lp_.head]) and not must_pass_unless_noop(facts, body, itb0, [lp_.head], noop):
+                    inner_ok = False
+            if inner_ok and outer_ok:
                 have[d] = (bb, b, it)
         missing = sorted(want - set(have))
         effs = effects(facts, body)
